@@ -175,7 +175,8 @@ def _calls(ctx, group, layout):
         Q1 = _layout(ctx.array('q1', (2, 2, 1)), layout)
         QQ = _tt(ctx, 'qq', [2, 2], 2, layout)
         return [lambda: T.core_dot(G, R), lambda: T.core_dot(G, R, ltr=False), lambda: T.core_stab(G), lambda: T.core_stab(G, 3),
-                lambda: T.core_qtt_to_tt([Q0, Q1]), lambda: T.qtt_to_tt(QQ, 2)]
+                lambda: T.core_qtt_to_tt([Q0, Q1]), lambda: T.qtt_to_tt(QQ, 2),
+                lambda: T.core_qtt_to_tt([Q0]), lambda: T.qtt_to_tt(QQ, 1)]
     if group == 'tensors_grid':
         v = ctx.real('v')
         sh = _layout(vec(ctx, 's', 2), layout)
@@ -200,11 +201,18 @@ def _calls(ctx, group, layout):
         Xn = vec(ctx, 'xn', 2)
         ctx.assume(ctx.lt(Xn[0], Xn[1]))
         Y1 = [_layout(ctx.array('h0', (1, 2, 1)), layout), _layout(ctx.array('h1', (1, 2, 1)), layout)]
+        av = _layout(vec(ctx, 'av', 2), layout)
+        bv = _layout(vec(ctx, 'bv', 2), layout)
+        for k in range(2):
+            ctx.assume(ctx.lt(av[k], bv[k]))
+            ctx.assume(ctx.gt(bv[k], 0))
         return [lambda: T.func_int(A3), lambda: T.func_int(A3, 'sin'), lambda: T.func_gets(A3), lambda: T.func_gets(A3, [2, 4]),
                 lambda: T.func_sum(A3, -1., 2.), lambda: T.func_get(Xq, A3, -1., 1.), lambda: T.func_basis(xb, 3),
                 lambda: T.func_diff_matrix(-1., 1., 3), lambda: T.func_int_full(Af), lambda: T.func_sum_full(Af, -1., 1.),
                 lambda: T.func_get_full(xf, Af, -1., 1.), lambda: T.func_gets_full(Af, -1., 1.),
-                lambda: T.func_int_general(Y1, Xn, lambda q: T.func_basis(q, 2))]
+                lambda: T.func_int_general(Y1, Xn, lambda q: T.func_basis(q, 2)),
+                lambda: T.func_sum(A3, av, bv), lambda: T.func_get(Xq, A3, av, bv),
+                lambda: T.func_sum_full(Af, -bv, bv), lambda: T.func_get_full(xf, Af, av, bv)]
     if group == 'anova_sample':
         I = np.array([[0, 0], [1, 1], [0, 1], [1, 0]])
         y = _layout(vec(ctx, 'ya', 4), layout)
@@ -220,7 +228,7 @@ def _calls(ctx, group, layout):
     raise KeyError(group)
 
 
-N_STEPS = {'act': 26, 'core': 6, 'tensors_grid': 16, 'func': 13, 'anova_sample': 4, 'optima': 5}
+N_STEPS = {'act': 26, 'core': 8, 'tensors_grid': 16, 'func': 17, 'anova_sample': 4, 'optima': 5}
 
 
 def h_templates(ctx, group, layout, step):
